@@ -532,7 +532,7 @@ func (e *eng) corrTree(r *hx.Rng) {
 			// small volumes: the model re-opens its final image from table + bytes alone (`reopen`, `reopenCheck`);
 			// the raw reader's tree (names, nesting, sizes, contents) and its verdict on the chains of the
 			// parsed entries are the real side
-			reopenCase := cfg.Size <= 300*kib
+			reopenCase := cfg.Size <= 300*kib && i%4 != 3
 			roCase, roImpl := []string{}, []string{}
 			if reopenCase {
 				chk := 1
